@@ -1068,10 +1068,19 @@ class Interp:
         # havoc
         mods = lsp.modifies if lsp.modifies is not None else sorted(assigned_names(st.body) | ({n for n in ast.walk(st.target) if False} if False else set()))
         tnames = {n.id for n in ast.walk(st.target) if isinstance(n, ast.Name)} if hasattr(st, "target") else set()
+        first = getattr(lsp, "bound_by_first_iteration", None) or {}
+        if first:
+            if not isinstance(st, ast.While):
+                raise Unsupported("bound_by_first_iteration on a for loop")
+            c0 = truth(cx, self.eval(cx, fr, st.test))
+            cx.oblige(f"{tag}.enters-at-least-once", "loop-init", as_bool(cx, c0), line=line, clause="the loop body runs at least once, so the locals it assigns are bound afterwards")
         for nm in mods:
             if nm in tnames:
                 continue
             cur = fr.env.lookup(nm)
+            if cur is None and not fr.env.has(nm) and nm in first:
+                fr.env.set(nm, first[nm](cx))
+                continue
             if cur is None and not fr.env.has(nm):
                 continue
             fr.env.set(nm, havoc_value(cx, cur, nm))
